@@ -151,7 +151,12 @@ fn mock(prog: &[Instruction], w: &HashMap<&'static str, IrValue>, inst: Vec<(IrV
     });
     match r {
         Ok(Ok(s)) | Ok(Err(s)) => s,
-        Err(_) => "panic".to_string(),
+        Err(p) => {
+            if std::env::var("H_C18_DEBUG").is_ok() {
+                eprintln!("mock panic: {p}");
+            }
+            "panic".to_string()
+        }
     }
 }
 
